@@ -326,7 +326,9 @@ def instrument(rec: Rec, poison: dict) -> Iterator[None]:
 
     async def o_stop(tasks: Any, *, title: str, **kw: Any) -> Any:
         redundant = bool(kw.get("quiet"))
-        rec.add("orchStopSubsBegin", len(tasks), redundant, sorted(i for i in (rec.sub_of_task.get(id(t)) for t in tasks) if i is not None))
+        # (the title tells the two exit stops of `stop_in_order` apart, since /repo 26a293c: "streaming", then "pinging")
+        rec.add("orchStopSubsBegin", len(tasks), redundant, sorted(i for i in (rec.sub_of_task.get(id(t)) for t in tasks) if i is not None),
+                str(title))
         try:
             out = await aiotasks.stop(tasks, title=title, **kw)
         except asyncio.CancelledError:
